@@ -232,7 +232,8 @@ func (h *c19H) writer(id, wi int) {
 				w.SetSample(i, dyn.Tok(h.t, base+int64(i)))
 			}
 		case "write":
-			src := dyn.NewSl(h.t, w.Len())
+			// (more data than the window holds: only the window may be written)
+			src := dyn.NewSl(h.t, w.Len()+C+1)
 			for i := 0; i < src.Len(); i++ {
 				src.Set(i, dyn.Tok(h.t, base+5+int64(i)))
 			}
@@ -240,9 +241,10 @@ func (h *c19H) writer(id, wi int) {
 		case "wstriped":
 			srcs := make([]dyn.Sl, C)
 			for c := range srcs {
-				srcs[c] = dyn.NewSl(h.t, 2)
+				srcs[c] = dyn.NewSl(h.t, 3) // one frame more than the window holds
 				srcs[c].Set(0, dyn.Tok(h.t, base+10+int64(c)))
 				srcs[c].Set(1, dyn.Tok(h.t, base+12+int64(c)))
+				srcs[c].Set(2, dyn.Tok(h.t, base+14+int64(c)))
 			}
 			h.mix(id, uint64(dyn.WriteStriped(h.t, srcs, false, w)))
 		case "chanset":
@@ -252,7 +254,7 @@ func (h *c19H) writer(id, wi int) {
 			}
 		case "convdst":
 			// conversion with the window as destination (same element type: identity-like)
-			src := dyn.Alloc(h.t, al(C, 2, 2))
+			src := dyn.Alloc(h.t, al(C, 3, 3)) // one frame more than the window holds
 			for i := 0; i < src.Len(); i++ {
 				src.SetSample(i, dyn.Tok(h.t, int64(wi)))
 			}
@@ -477,7 +479,7 @@ func (h *c19InstH) Run(id int) {
 	} else {
 		half := fr / 2
 		w := h.shared.Slice(id*half, id*half+half)
-		src := dyn.Alloc(h.s, al(C, half, half))
+		src := dyn.Alloc(h.s, al(C, half+1, half+1)) // one frame more than the window holds
 		for i := 0; i < src.Len(); i++ {
 			src.SetSample(i, dyn.Tok(h.s, tk(int64(3+i+7*id))))
 		}
